@@ -87,6 +87,11 @@ CHECKS["C06"] = dict(
     note="Trusted: pysym interpreter/models, z3. Renderings of @string/@preamble/comments are the writer's documented forms.",
     ref="§4 C06")
 
+CHECKS["C18"] = dict(
+    text="The third-party converter is replaced by a nondeterministic stub (each call returns a marked copy of its input or raises, chosen by a fresh symbolic boolean, so all failure patterns are solver-chosen); a library with every block kind and an entry holding str, int and NameParts values is pushed through both real middlewares in copy and in-place mode; z3 decides per final world that exactly the text values were converted once, types/keys/raw/lines/other blocks are untouched and that any failure yields a MiddlewareErrorBlock around the entry/string rather than an exception. The round-trip clause is not claimed.",
+    note="Trusted: pysym interpreter/models, z3. pylatexenc itself is stubbed: decode(encode(t)) == t is outside the claim (DESIGN §6).",
+    ref="§4 C18, §6")
+
 NOT_YET = "check not built yet in this round (engine exists; harness pending)"
 
 def main():
